@@ -156,6 +156,13 @@ func (n *DestinationAckerNode) worker(
 					handleError(msg, cerrors.Errorf("error while fetching acks: %w", err))
 					return
 				}
+				if len(acks) == 0 {
+					// A reply without any ack and without an error is a protocol
+					// violation by the connector; indexing acks[0] below would
+					// panic in this goroutine and take the whole process down.
+					handleError(msg, cerrors.New("destination connector returned no acks"))
+					return
+				}
 			}
 
 			ack := acks[0]
